@@ -2,6 +2,7 @@
 This module contains optimizations for the `{% provide %}` feature.
 """
 
+import threading
 from contextlib import contextmanager
 from typing import Dict, Generator, NamedTuple, Set
 
@@ -85,19 +86,22 @@ provide_references: Dict[str, Set[str]] = {}
 # Keep track of all the listeners that are referencing any provided data.
 all_reference_ids: Set[str] = set()
 
+# The three registries above are shared by all threads, and each function below reads and updates
+# several of them in a row, so each function is a critical section.
+_provide_lock = threading.RLock()
+
 
 @contextmanager
 def managed_provide_cache(provide_id: str) -> Generator[None, None, None]:
-    all_reference_ids_before = all_reference_ids.copy()
-
     # The provider holds a reference to its own data for as long as its body is being rendered.
     # Otherwise, when several components share the provider and the first one of them finishes
     # rendering (and so unregisters itself as the last known reference) before the next one has
     # started, the provided data would be dropped while it is still needed.
-    if provide_id not in provide_references:
-        provide_references[provide_id] = set()
-    provide_references[provide_id].add(provide_id)
-    all_reference_ids.add(provide_id)
+    with _provide_lock:
+        if provide_id not in provide_references:
+            provide_references[provide_id] = set()
+        provide_references[provide_id].add(provide_id)
+        all_reference_ids.add(provide_id)
 
     def cache_cleanup() -> None:
         # Lastly, remove provided data from the cache that was generated during this run,
@@ -113,54 +117,50 @@ def managed_provide_cache(provide_id: str) -> Generator[None, None, None]:
 
     try:
         yield
-    except Exception as e:
-        # In case of an error in `Component.render()`, there may be some
-        # references left hanging, so we remove them.
-        new_reference_ids = all_reference_ids - all_reference_ids_before
-        for reference_id in new_reference_ids:
-            unregister_provide_reference(reference_id)
-
-        # Cleanup
-        cache_cleanup()
-        # Forward the error
-        raise e from None
-
-    # The body is rendered, from now on only the components that are yet to be rendered keep the data alive
-    unregister_provide_reference(provide_id)
-    # Cleanup
-    cache_cleanup()
+    finally:
+        # NOTE: In case of an error in `Component.render()`, the components that failed or that will not be
+        #       rendered anymore unregister themselves (see `_cleanup_failed_render()` in `component.py`).
+        #       We must NOT guess them from what was added to `all_reference_ids` in the meantime, because
+        #       that also contains the components that are being rendered in other threads.
+        with _provide_lock:
+            # The body is rendered, from now on only the components that are yet to be rendered keep the data alive
+            unregister_provide_reference(provide_id)
+            # Cleanup
+            cache_cleanup()
 
 
 def register_provide_reference(context: Context, reference_id: str) -> None:
-    # No `{% provide %}` among the ancestors, nothing to register to
-    if not provide_cache:
-        return
+    with _provide_lock:
+        # No `{% provide %}` among the ancestors, nothing to register to
+        if not provide_cache:
+            return
 
-    all_reference_ids.add(reference_id)
+        all_reference_ids.add(reference_id)
 
-    for key, provide_id in context.flatten().items():
-        if not key.startswith(_INJECT_CONTEXT_KEY_PREFIX):
-            continue
+        for key, provide_id in context.flatten().items():
+            if not key.startswith(_INJECT_CONTEXT_KEY_PREFIX):
+                continue
 
-        if provide_id not in provide_references:
-            provide_references[provide_id] = set()
-        provide_references[provide_id].add(reference_id)
+            if provide_id not in provide_references:
+                provide_references[provide_id] = set()
+            provide_references[provide_id].add(reference_id)
 
 
 def unregister_provide_reference(reference_id: str) -> None:
-    # No registered references, nothing to unregister
-    if reference_id not in all_reference_ids:
-        return
+    with _provide_lock:
+        # No registered references, nothing to unregister
+        if reference_id not in all_reference_ids:
+            return
 
-    all_reference_ids.remove(reference_id)
+        all_reference_ids.remove(reference_id)
 
-    for provide_id in list(provide_references.keys()):
-        if reference_id not in provide_references[provide_id]:
-            continue
+        for provide_id in list(provide_references.keys()):
+            if reference_id not in provide_references[provide_id]:
+                continue
 
-        provide_references[provide_id].remove(reference_id)
+            provide_references[provide_id].remove(reference_id)
 
-        # There are no more references to the provided data, so we can delete it.
-        if not provide_references[provide_id]:
-            provide_cache.pop(provide_id)
-            provide_references.pop(provide_id)
+            # There are no more references to the provided data, so we can delete it.
+            if not provide_references[provide_id]:
+                provide_cache.pop(provide_id)
+                provide_references.pop(provide_id)
